@@ -95,7 +95,9 @@ PropagateSound == Applies(g) => Pairs(Full(g.n1, Union(g)), Full(g.n2, Union(g))
 \* ------------------------------------------------------------------ scenario emission
 DataSeq == SetToSortSeq(Data, LAMBDA s, t : TRUE)
 LSOf(s) == <<<<"__name__", s.name>>>> \o (IF s.a = "" THEN <<>> ELSE <<<<"a", s.a>>>>) \o (IF s.b = "" THEN <<>> ELSE <<<<"b", s.b>>>>)
+\* (for the replay a third metric k with a single series: next to n it is a duplicate for the match at a="x", b="x" only)
 DataScn == [i \in 1..Len(DataSeq) |-> Series(LSOf(DataSeq[i]), [u \in 1..6 |-> Smp(u - 1, "f", 3 * i + u)])]
+           \o << Series(<< <<"__name__", "k">>, <<"a", "x">>, <<"b", "x">> >>, [u \in 1..6 |-> Smp(u - 1, "f", 500 + u)]) >>
 
 \* binon: `A + on () B` - selectors as direct operands, but matched on no label at all
 Positions == <<"bin", "sum", "fnarg", "range", "aggby", "groupleft", "cmp", "neg", "paren", "nested", "binon">>
@@ -139,7 +141,18 @@ FamilyPlans == {Join(Over(<<[Blank("sel") EXCEPT !.m = Family[i]]>>, LAMBDA c : 
                      LAMBDA a, b : BinM("/", a, b, FALSE, "1:1", TRUE, <<"a">>, <<>>)) : i \in 1..Len(Family), j \in 1..Len(Broader)}
                \cup {Join(<<[Blank("sel") EXCEPT !.m = Broader[j]]>>, Over(<<[Blank("sel") EXCEPT !.m = Family[i]]>>, LAMBDA c : Agg("count", TRUE, <<>>, <<c>>)),
                           LAMBDA a, b : BinM("*", a, b, FALSE, "N:1", TRUE, <<>>, <<>>)) : i \in 1..Len(Family), j \in 1..Len(Broader)}
-EmitFamily == \A p \in FamilyPlans : Emit(Scn("opt", "C09", TickMs, DataScn, p, 2, 5, 1, 2, 0) @@ [pin |-> TRUE])
+\* a selector of one metric next to a selector of the family as DIRECT operands of an arithmetic operator: the family
+\* side holds duplicates for the match (series of m and n with equal labels), which fails the query whatever the
+\* other side selects - an optimizer that narrows the family side must not make that error go away
+NK == Re("__name__", "n|k", <<"n", "k">>)
+DirectPlans == {Join(<<[Blank("sel") EXCEPT !.m = <<Metric("m")>> \o ms]>>, <<[Blank("sel") EXCEPT !.m = <<NK>>]>>, LAMBDA a, b : Bin("+", a, b))
+                   : ms \in {<<Eq("a", "y")>>, <<Eq("b", "y")>>, <<Eq("a", "x"), Eq("b", "x")>>, <<Neq("a", "x")>>}}
+               \cup {Join(<<[Blank("sel") EXCEPT !.m = <<NK>>]>>, <<[Blank("sel") EXCEPT !.m = <<Metric("m"), Eq("a", "y")>>]>>, LAMBDA a, b : Bin("-", a, b))}
+               \cup {Join(<<[Blank("sel") EXCEPT !.m = <<Metric("m")>> \o ms]>>, <<[Blank("sel") EXCEPT !.m = Broader[j]]>>, LAMBDA a, b : Bin("+", a, b))
+                   : ms \in {<<Eq("a", "q")>>, <<Eq("a", "x")>>, <<Neq("b", "")>>, <<>>}, j \in 1..Len(Broader)}
+               \cup {Join(<<[Blank("sel") EXCEPT !.m = Broader[j]]>>, <<[Blank("sel") EXCEPT !.m = <<Metric("n")>> \o ms]>>, LAMBDA a, b : Bin("*", a, b))
+                   : ms \in {<<Eq("a", "q")>>, <<Eq("b", "y")>>}, j \in 1..Len(Broader)}
+EmitFamily == (\A p \in DirectPlans : Emit(Scn("opt", "C09", TickMs, DataScn, p, 2, 5, 1, 2, 0) @@ [pin |-> TRUE, cfg |-> [bare |-> 1]])) /\ \A p \in FamilyPlans : Emit(Scn("opt", "C09", TickMs, DataScn, p, 2, 5, 1, 2, 0) @@ [pin |-> TRUE])
 \* emit pairs on which a rewrite actually fires or which PropagateMatchers inspects and rejects, from the seeded residue class
 Fires(x) == Rewrite(x, S1(x)).merged \/ Rewrite(x, S2(x)).merged \/ Applies(x)
 \* ... and, at a third of that rate, pairs on which the model says NO rewrite fires (a change that
